@@ -853,6 +853,10 @@ class Engine:
         if isinstance(f, ast.Attribute):
             base = self.sev(f.value, env)
             args = [self.sev(a, env) for a in node.args]
+            if isinstance(base.t, TStr) and f.attr == 'join' and len(args) == 1 and isinstance(args[0].t, TList) \
+                    and hasattr(self, 'join_value'):
+                # sep.join(list): the same uninterpreted function of (separator, list) as in code mode
+                return self.join_value(st, base, args[0])
             if isinstance(base.t, TStr):
                 r = self.str_method(st, base, f.attr, args, None, node)
                 if r is not None:
